@@ -311,8 +311,8 @@ fn run_case(c: &WtCase, stride: usize, phase: usize, st: &mut Stats) -> Vec<Viol
     };
     // every other session starts with unsaved drafts of all modules that come and go
     if phase % 2 == 1 {
-        for pm in &c.printed {
-            if let Err(e) = lsp.disturb(&file_uri(&dir.path.join(&pm.file)), &pm.text) {
+        for (m, pm) in c.printed.iter().enumerate() {
+            if let Err(e) = lsp.disturb(&file_uri(&dir.path.join(&pm.file)), &pm.text, (m + phase / 2) % 2 == 0) {
                 return vec![Violation::new(
                     "the language server died or stopped answering while a draft was opened and closed",
                     json!({"signature": "C17 server-failure:draft", "error": format!("{e:?}")}),
